@@ -7,6 +7,7 @@ import (
 	"fmt"
 	"io"
 	"os"
+	"strings"
 	"sync/atomic"
 	"time"
 
@@ -89,10 +90,15 @@ func encAny(v string) interface{} {
 		return Pt{X: 7, S: "seven", L: []string{"a", "b"}}
 	case "zero":
 		return Pt{}
+	case "big":
+		return bigVal
 	}
 
 	return v
 }
+
+// bigVal: a value whose gob encoding is larger than common buffer sizes (4 KiB, 8 KiB).
+var bigVal = "BIG" + strings.Repeat("0123456789abcdef", 600)
 
 func decAny(v interface{}) string {
 	if v == nil {
@@ -100,6 +106,10 @@ func decAny(v interface{}) string {
 	}
 
 	if s, ok := v.(string); ok {
+		if s == bigVal {
+			return "big"
+		}
+
 		return s
 	}
 
@@ -121,12 +131,20 @@ func encStr(v string) string {
 		return ""
 	}
 
+	if v == "big" {
+		return bigVal
+	}
+
 	return v
 }
 
 func decStr(v string) string {
 	if v == "" {
 		return "nil"
+	}
+
+	if v == bigVal {
+		return "big"
 	}
 
 	return v
